@@ -668,3 +668,92 @@ func init() {
 	register("C02", Rule{"R02g", ruleShrunkSetsNormalised})
 	register("C01", Rule{"R02g", ruleShrunkSetsNormalised})
 }
+
+// R02h: equal values are interchangeable only if Equal looks at everything behaviour looks at.  For every value
+// type, each representation field that an observer method (CallAll, Has, Enumerator, Count, Get, Names, IsTrue, Less,
+// Export, Eval of the value itself excluded) reads must also be read by Equal — transitively through module callees —
+// unless the field is a cache (written inside a sync.Once of the same struct), a synchronisation primitive, or
+// declared derived from the other fields.
+func ruleEqualCoversBehaviour(p *Program, r *Report) {
+	r.Begin("R02h", "Equal covers behaviour: for every value type, each field read by an observer method (CallAll, Has, Enumerator, ArrayEnumerator, Count, Get, Names, IsTrue, Less, Export, Where, Map) is also read by Equal (transitively), except caches filled under a sync.Once of the struct, sync primitives and fields declared derived — otherwise two values compare equal (and collapse in a set) yet answer differently", 12)
+	defer r.End()
+	derived := map[string]string{
+		"Array.count":             "number of non-nil items, recomputed from values by every constructor",
+		"String.holes":            "number of negative runes in s, recomputed by every constructor",
+		"Relation.attrMap":        "index of attrs under p, recomputed by newRelation (mapIndices)",
+		"Relation.p":              "determined by attrs and attrMap (attrMap = mapIndices(attrs, p)), both of which Equal reads",
+		"NativeFunction.fn":       "Go function values are not comparable; natives are compared by registered name",
+		"positionalRelation.meta": "lazily built lookup indices over set",
+	}
+	gi := scanGuards(p)
+	cache := map[string]bool{}
+	for _, g := range inferGuards(gi) {
+		if g.kind == "once" {
+			cache[g.cell] = true
+		}
+	}
+	observers := []string{"CallAll", "Has", "Enumerator", "ArrayEnumerator", "Count", "Get", "Names", "IsTrue", "Less", "Export", "Where", "Map"}
+	for _, t := range p.ValueTypes() {
+		n, ok := Deref(t).(*types.Named)
+		if !ok {
+			continue
+		}
+		st, isStruct := n.Underlying().(*types.Struct)
+		if !isStruct {
+			continue
+		}
+		eqM := p.MethodOf(t, "Equal")
+		if eqM == nil {
+			continue
+		}
+		r.Fn(FnName(eqM))
+		eq, obs := map[string]bool{}, map[string]bool{}
+		fieldsRead(p, eqM, n, map[*ssa.Function]bool{}, eq, 0)
+		by := map[string]string{}
+		for _, m := range observers {
+			if om := p.MethodOf(t, m); om != nil {
+				one := map[string]bool{}
+				fieldsRead(p, om, n, map[*ssa.Function]bool{}, one, 0)
+				for f := range one {
+					if !obs[f] {
+						by[f] = m
+					}
+					obs[f] = true
+				}
+			}
+		}
+		name := shortT(n)
+		var miss []string
+		for f := range obs {
+			if eq[f] {
+				continue
+			}
+			if _, isDerived := derived[name+"."+f]; isDerived {
+				continue
+			}
+			if cache[TypeName(n)+"."+f] {
+				continue
+			}
+			skip := false
+			for i := 0; i < st.NumFields(); i++ {
+				if st.Field(i).Name() == f && syncKind(st.Field(i).Type()) != "" {
+					skip = true
+				}
+			}
+			if skip {
+				continue
+			}
+			miss = append(miss, f)
+		}
+		sort.Strings(miss)
+		if len(miss) == 0 {
+			r.OK("covers@"+name, fmt.Sprintf("observers read {%s}; Equal reads {%s}", strings.Join(SortedKeys(obs), ","), strings.Join(SortedKeys(eq), ",")), eqM.Pos())
+			continue
+		}
+		for _, f := range miss {
+			r.Viol("covers@"+name+"."+f, fmt.Sprintf("%s.%s reads field %s, which %s.Equal never looks at: two values that differ only there compare equal, hash equal and collapse in a set, yet answer differently", name, by[f], f, name), eqM.Pos())
+		}
+	}
+}
+
+func init() { register("C02", Rule{"R02h", ruleEqualCoversBehaviour}) }
